@@ -45,8 +45,11 @@ RULES = {
     "field write that would still be reached if the function went on is either data-dependent on what the return's "
     "guard tested (nothing to write), or the return follows a whole-message CopyFrom, or it follows a logged warning "
     "(declared unsupported case)",
+    "R12": "branch/field agreement of the attribute dispatch: for every AttributeType member the reader's branch reads exactly "
+    "the AttributeProto value field(s) that the writer's branch for the same member writes (f/i/s/t/g/tp vs floats/ints/…): the "
+    "singular field read in a plural branch (or the reverse) is the unset default, so that part of the attribute is dropped",
 }
-FLOORS = {"R1": 100, "R2": 40, "R3": 30, "R4": 1, "R5": 40, "R6": 20, "R7": 6, "R8": 3, "R9": 3, "R10": 10, "R11": 1}
+FLOORS = {"R1": 100, "R2": 40, "R3": 30, "R4": 1, "R5": 40, "R6": 20, "R7": 6, "R8": 3, "R9": 3, "R10": 10, "R11": 1, "R12": 12}
 EXPLANATION = (
     "Types every proto expression of serde.py through parameter annotations and the parsed onnx-ml.proto schema, "
     "collects per message the fields the deserializer reads and the serializer writes (attribute access, HasField, "
@@ -231,6 +234,44 @@ def _attr_type_chain(f: FuncInfo):
                 only_raise = all(isinstance(s, ast.Raise) for s in n.body)
                 out[mem] = "raises" if only_raise else "handled"
     return out
+
+
+def _branch_fields(f: FuncInfo, proto_param: str, fields: set) -> dict:
+    """{AttributeType member: set of AttributeProto fields touched through the proto parameter in that branch}."""
+    out = {}
+    for n in own_nodes(f.node):
+        if isinstance(n, ast.If) and isinstance(n.test, ast.Compare) and len(n.test.comparators) == 1:
+            d = dotted_of(n.test.comparators[0]) or ""
+            if "AttributeType." in d:
+                got = set()
+                for b in n.body:
+                    for x in ast.walk(b):
+                        if isinstance(x, ast.Attribute) and isinstance(x.value, ast.Name) and x.value.id == proto_param and x.attr in fields:
+                            got.add(x.attr)
+                out[d.rsplit(".", 1)[1]] = got
+    return out
+
+
+def rule_r12(ctx):
+    repo = ctx.repo
+    rd = repo.func(f"{SERDE}:_deserialize_attribute")
+    wr = repo.func(f"{SERDE}:_fill_in_value_for_attribute")
+    msg = ctx.schema.messages["AttributeProto"]
+    fields = set(msg.fields) - {"name", "type", "doc_string", "ref_attr_name"}
+    ctx.require(len(fields) >= 10, "AttributeProto value fields not found in the schema")
+    r = _branch_fields(rd, rd.params[0], fields)
+    w = _branch_fields(wr, wr.params[0], fields)
+    n = 0
+    for mem in sorted(set(r) | set(w)):
+        if mem not in r or mem not in w or (not r[mem] and not w[mem]):
+            continue  # R3 decides presence; unsupported kinds touch no field on either side
+        n += 1
+        ctx.check("R12", f"AttributeType.{mem}: reader reads {sorted(r[mem])}, writer writes {sorted(w[mem])}", r[mem] == w[mem], rd, rd.node,
+                  f"the deserializer's {mem} branch reads AttributeProto.{sorted(r[mem])} while the serializer's {mem} branch writes "
+                  f"{sorted(w[mem])}: a field the writer never fills for this kind is the unset default, so what is read from it is empty",
+                  how="fields touched through the proto parameter inside the `type_ == AttributeType.X` branches of both dispatch functions",
+                  construct=f"{mem}: reader fields {sorted(r[mem])} vs writer fields {sorted(w[mem])}")
+    ctx.require(n >= 12, f"only {n} attribute kinds compared")
 
 
 def rule_r3(ctx):
@@ -803,6 +844,7 @@ def rule_r11(ctx):
 
 
 def run(ctx):
+    rule_r12(ctx)
     rule_type_reader_siblings(ctx)
     rule_r11(ctx)
     rule_r10(ctx)
